@@ -468,20 +468,22 @@ theorem gen_linear_valid [FloorRing K] (T : Transc K) (lo hi : K) (num : Nat) (d
     exact ⟨fun x hx => lt_of_lt_of_le h0 (hr x hx).1, Or.inl hs⟩
 
 /-- monotone `10^x` puts the image of `[log₁₀ min, log₁₀ max)` into `[min, max)` -/
-theorem pow10_range (T : Transc K) (hT : T.Lawful) (hmono : StrictMono T.pow10) (minw maxw u : K)
+theorem pow10_range (T : Transc K) (hT : T.Lawful) (minw maxw u : K)
     (h0 : 0 < minw) (h1 : 0 < maxw) (hu : T.log10 minw ≤ u ∧ u < T.log10 maxw) :
     minw ≤ T.pow10 u ∧ T.pow10 u < maxw := by
+  have hmono : StrictMono T.pow10 := fun a b hab => hT.pow10_strictMono a b hab
   constructor
   · rw [← hT.pow10_log10 minw h0]; exact hmono.monotone hu.1
   · rw [← hT.pow10_log10 maxw h1]; exact hmono hu.2
 
 /-- `generate_wavelengths(min, max, num, log=True)`: `num` points, all in `[min, max)`, strictly
 increasing, neighbours in the constant ratio `10^((log max − log min)/num)` (uniform in log space) -/
-theorem gen_log_num [FloorRing K] (T : Transc K) (hT : T.Lawful) (hmono : StrictMono T.pow10)
+theorem gen_log_num [FloorRing K] (T : Transc K) (hT : T.Lawful)
     (minw maxw : K) (num : Nat) (h0 : 0 < minw) (h : minw < maxw) :
     let g := generateWavelengths T minw maxw num none true
     g.length = num ∧ (∀ x ∈ g, minw ≤ x ∧ x < maxw) ∧
     UniformRatio (T.pow10 ((T.log10 maxw - T.log10 minw) / num)) g ∧ StrictAsc g := by
+  have hmono : StrictMono T.pow10 := fun a b hab => hT.pow10_strictMono a b hab
   have h1 : 0 < maxw := lt_trans h0 h
   have hlog : T.log10 minw < T.log10 maxw := by
     by_contra hc
@@ -493,7 +495,7 @@ theorem gen_log_num [FloorRing K] (T : Transc K) (hT : T.Lawful) (hmono : Strict
   · intro x hx
     rw [List.mem_map] at hx
     obtain ⟨u, hu, rfl⟩ := hx
-    exact pow10_range T hT hmono minw maxw u h0 h1 ((linspace_spec _ _ num hlog).2.1 u hu)
+    exact pow10_range T hT minw maxw u h0 h1 ((linspace_spec _ _ num hlog).2.1 u hu)
   · exact uniformRatio_map_pow10 T hT _ _ (affineGrid_uniform _ _ _)
   · by_cases hn : num = 0
     · subst hn; simp [linspaceOpen, affineGrid_zero, StrictAsc]
@@ -504,18 +506,19 @@ theorem gen_log_num [FloorRing K] (T : Transc K) (hT : T.Lawful) (hmono : Strict
 
 /-- `generate_wavelengths(min, max, delta=d, log=True)`: the points `10^(log min + i·d)` below `max`,
 all in `[min, max)`, strictly increasing, neighbours in the constant ratio `10^d` -/
-theorem gen_log_delta [FloorRing K] (T : Transc K) (hT : T.Lawful) (hmono : StrictMono T.pow10)
+theorem gen_log_delta [FloorRing K] (T : Transc K) (hT : T.Lawful)
     (minw maxw d : K) (num : Nat) (h0 : 0 < minw) (h1 : 0 < maxw) (hd : 0 < d) :
     let g := generateWavelengths T minw maxw num (some d) true
     (∀ x ∈ g, minw ≤ x ∧ x < maxw) ∧
     (∀ i, i < g.length → g[i]? = some (T.pow10 (T.log10 minw + (i : K) * d))) ∧
     UniformRatio (T.pow10 d) g ∧ StrictAsc g := by
+  have hmono : StrictMono T.pow10 := fun a b hab => hT.pow10_strictMono a b hab
   simp only [generateWavelengths, if_true]
   refine ⟨?_, ?_, ?_, ?_⟩
   · intro x hx
     rw [List.mem_map] at hx
     obtain ⟨u, hu, rfl⟩ := hx
-    exact pow10_range T hT hmono minw maxw u h0 h1 (arange_spec _ _ d hd u hu).2
+    exact pow10_range T hT minw maxw u h0 h1 (arange_spec _ _ d hd u hu).2
   · intro i hi'
     rw [List.length_map] at hi'
     unfold arange at hi' ⊢
@@ -690,14 +693,14 @@ example : generateWavelengths Transc.real 1 100 2 none true = [1, 10] := by
   simp [generateWavelengths, linspaceOpen, affineGrid, List.range_succ, logb_100]
 
 example : (generateWavelengths Transc.real 1 100 2 none true).length = 2 :=
-  (gen_log_num Transc.real Transc.real_lawful real_pow10_strictMono 1 100 2 (by norm_num) (by norm_num)).1
+  (gen_log_num Transc.real Transc.real_lawful 1 100 2 (by norm_num) (by norm_num)).1
 
 example : ∀ x ∈ generateWavelengths Transc.real 1 100 2 (some (1 / 2)) true, (1 : ℝ) ≤ x ∧ x < 100 :=
-  (gen_log_delta Transc.real Transc.real_lawful real_pow10_strictMono 1 100 (1 / 2) 2 (by norm_num)
+  (gen_log_delta Transc.real Transc.real_lawful 1 100 (1 / 2) 2 (by norm_num)
     (by norm_num) (by norm_num)).1
 
 example : (1 : ℝ) ≤ Transc.real.pow10 1 ∧ Transc.real.pow10 1 < 100 :=
-  pow10_range Transc.real Transc.real_lawful real_pow10_strictMono 1 100 1 (by norm_num) (by norm_num)
+  pow10_range Transc.real Transc.real_lawful 1 100 1 (by norm_num) (by norm_num)
     (by simp [logb_100])
 
 end Synphot.C13
